@@ -111,6 +111,14 @@ func solveAll(d *Driver, fvcs []*FuncVC, dir string, timeoutMs int, keepText boo
 		}
 		for _, o := range f.VC.obls {
 			o, f := o, f
+			if o.Decided != "" {
+				st := o.Decided
+				if st == "sat" {
+					st = "unknown" // a failed structural obligation: reported like an undischarged one, with its reason as clause text
+				}
+				out = append(out, &oblResult{O: o, R: SolveResult{Status: st, Solver: "structural analysis", PerSolv: map[string]string{"structural analysis": o.Decided}}, VC: f.VC, Txt: "; decided by the structural analysis, no SMT query\n; " + o.Src})
+				continue
+			}
 			if sr, ok := settled[o]; ok {
 				// settled: a proof (unsat) of a proof obligation, or a witness (sat) of a cover; anything else is
 				// decided by the individual race below
